@@ -1,23 +1,679 @@
 """C06 - titles, headers, footnotes and sources appear on exactly the configured pages.
 
-R06.1 placement predicates (3 siblings) == spec table, emit sites guarded by them with the right
-placement field; R06.2 block order and once-ness in PageRenderer.render; R06.3 needs_header /
-is_first / is_last at the three strategies; R06.4 page-break geometry uses the same conversion and
-the same six margin words as the document start, landscape flag; R06.5 page header/footer emitted
-once per document; R06.6 page flags are written only where pages are created.
+R06.1 placement predicates == spec table; the placed components of PageRenderer.render and of the figure path reach the
+output iff present ∧ spec(placement field); R06.2 block order and once-ness in PageRenderer.render; R06.3 needs_header /
+is_first / is_last at the three strategies; R06.4 page-break geometry uses the same conversion and the same six margin
+words as the document start, landscape flag; R06.5 page header/footer emitted once per document; R06.6 page flags are
+written only where pages are created.
+
+The emitters are not recognised by statement shape: they are *evaluated* (FlowDT below, an extension of the decision-table
+interpreter) over symbolic documents / concrete small models, and the rules compare what reaches the output.
 """
 from __future__ import annotations
 
 import ast
 import itertools
+import re
 
+from ..astmatch import leaves, resolve
 from ..consteval import const_expr
 from ..absint import NOC
-from ..dtab import DT, Sym, NeedAtom, Unsupported
-from ..pm import AnalysisError, dotted, unparse, walk_no_nested
+from ..dtab import DT, Sym, NeedAtom, Unsupported, Run, _Raise, _Continue, _Break, _OPS
+from ..pm import dotted, unparse, walk_no_nested
 from ..report import Ctx
 
+# ---------------------------------------------------------------------------------------------------------------
+# FlowDT: the decision-table interpreter of sa/dtab, extended so that whole emitter functions can be evaluated:
+# list accumulators stay concrete (symbolic contents are elements), generators are run eagerly, symbolic loops are
+# evaluated once over a generic element (bracketed by markers), methods bound with getattr()/stored in tables are
+# called through, class-level constants are read, callee that are not decision logic are opaque symbols.
+# Rules read the *result* (what is emitted, in which order, from which sources) instead of the statement shapes.
+# ---------------------------------------------------------------------------------------------------------------
+
+class Marker:
+    """bracket of one symbolic loop pass inside a concrete accumulator"""
+
+    def __init__(self, kind: str, loop: str):
+        self.kind, self.loop = kind, loop
+
+    def __repr__(self):
+        return f"<{self.kind} {self.loop}>"
+
+
+class SymIter:
+    """symbolic iterable: kind in range/enumerate/zip"""
+
+    def __init__(self, kind: str, items: list, n_text: str = ""):
+        self.kind, self.items, self.n_text = kind, items, n_text
+
+
+class RowModel:
+    """one row of a modelled frame that is keyed by a page number: element 0 is the number, the rest is symbolic"""
+
+    def __init__(self, key, tag: str):
+        self.key, self.tag = key, tag
+
+    def __repr__(self):
+        return f"<row {self.key} of {self.tag}>"
+
+
+class FlowDT(DT):
+    def __init__(self, pm, atoms=None, effect_calls=None, classes=None, max_atoms=40, inline_depth=6, opaque=(), inline=None,
+                 relevant=None, regime=True, preset=None, call_model=None, seq_model=None, sym_domain=None, root_cls=None):
+        super().__init__(pm, atoms=atoms, effect_calls=effect_calls, classes=classes, max_atoms=max_atoms, inline_depth=inline_depth)
+        self.opaque = set(opaque)            # callee names never inlined (their result is a symbol showing the arguments)
+        self.inline = inline                 # predicate FuncInfo -> bool (default: methods of the root function's class)
+        self.relevant = relevant             # substrings: atoms not mentioning any of them are pinned (regime)
+        self.regime = regime
+        self.preset = dict(preset or {})     # path -> value, re-seeded into the store of every run
+        self.call_model = call_model or {}   # callee name -> function(args) -> value  (concrete model of an external)
+        self.seq_model = seq_model           # function(path) -> list | None   (concrete model of a symbolic sequence)
+        self.sym_domain = sym_domain         # function(path) -> list | None   (finite domain of a symbolic value)
+        self.root_cls = root_cls
+        self.pinned: set[str] = set()
+        self.loops = 0
+        self.copies = 0
+        self.yields: list[list] = []
+        self._attr_cls_cache: dict = {}
+        self._is_gen: dict = {}
+        self._attr_memo: dict = {}
+
+    # ------------------------------------------------------------------ runs
+    def run(self, fi, args, valuation):
+        self.val = valuation
+        self.run_state = Run()
+        self.stores = {k: (list(v) if isinstance(v, list) else v) for k, v in self.preset.items()}
+        self.depth = 0
+        self.loops = 0
+        self.copies = 0
+        self.yields = []
+        if self.root_cls is None and fi.cls:
+            self.root_cls = fi.cls
+        try:
+            self.run_state.ret = self.call_fi(fi, args)
+        except _Raise as r:
+            self.run_state.raised = r.what
+        self.run_state.stores = dict(self.stores)         # final state of the attribute stores of this run
+        return self.run_state
+
+    def fresh_copy(self, v, deep: bool = True):
+        """a copy is a new object: stores to it do not reach the original (reads of unset attributes are new symbols)"""
+        if not isinstance(v, Sym):
+            import copy as _copy
+            return _copy.deepcopy(v) if deep else _copy.copy(v)
+        self.copies += 1
+        return Sym(f"copy#{self.copies}({v.path})", self.cls_of(v))
+
+    def atom(self, key, domain):
+        if key in self.val:
+            return self.val[key]
+        if key.startswith("bool(") and re.search(r"\(…\)(#\d+)?\)$", key):
+            return True                      # what an emitter returned is non-empty
+        known = self._implied(key)
+        if known is not None:
+            return known
+        if key not in self.atoms and self.relevant is not None and not any(r in key for r in self.relevant):
+            self.pinned.add(key)
+            if key.endswith(" is None"):
+                return not self.regime
+            if key.startswith(("bool(", "isinstance(", "hasattr(", "any(", "all(")):
+                return self.regime
+            return domain[0] if self.regime else domain[-1]
+        return super().atom(key, domain)
+
+    @staticmethod
+    def _canon(key: str) -> str:
+        prev = None
+        while prev != key:
+            prev, key = key, re.sub(r"copy#\d+\(([^()]*)\)", r"\1", key)
+        return key
+
+    def _implied(self, key: str):
+        """value of an existence atom that follows from the valuation: a copy exists iff its original does, an object
+        that is None is falsy, a truthy object is not None (keeps the enumerated configurations consistent)"""
+        c = self._canon(key)
+        m_none = re.fullmatch(r"(.+) is None", c)
+        m_bool = re.fullmatch(r"bool\((.+)\)", c)
+        if not (m_none or m_bool):
+            return None
+        obj = (m_none or m_bool).group(1)
+        for k, x in self.val.items():
+            ck = self._canon(k)
+            if ck == c and k != key:
+                return x
+            if m_none and ck == f"bool({obj})" and x is True:
+                return False
+            if m_bool and ck == f"{obj} is None" and x is True:
+                return False
+        return None
+
+    def concrete(self, v):
+        if isinstance(v, Sym) and self.sym_domain is not None and v.path not in self.stores and v.path not in self.atoms:
+            d = self.sym_domain(v.path)
+            if d is not None:
+                self.atoms[v.path] = list(d)
+        return super().concrete(v)
+
+    # ------------------------------------------------------------------ classes of attributes
+    def attr_class(self, cls: str, attr: str):
+        """class of `self.attr` from `self.attr = Cls(...)` in __init__ (services held by a class)"""
+        k = (cls, attr)
+        if k not in self._attr_cls_cache:
+            got = None
+            init = self.pm.find_method(cls, "__init__")
+            if init is not None:
+                for a in walk_no_nested(init.node):
+                    if isinstance(a, ast.Assign) and len(a.targets) == 1 and isinstance(a.targets[0], ast.Attribute) and a.targets[0].attr == attr \
+                            and isinstance(a.targets[0].value, ast.Name) and a.targets[0].value.id == "self" and isinstance(a.value, ast.Call):
+                        nm = dotted(a.value.func).split(".")[-1]
+                        if nm in self.pm.classes:
+                            got = nm
+            self._attr_cls_cache[k] = got
+        return self._attr_cls_cache[k]
+
+    def cls_of(self, v):
+        c = super().cls_of(v)
+        if c is None and isinstance(v, Sym) and "." in v.path and "(" not in v.path:
+            basep, attr = v.path.rsplit(".", 1)
+            bc = self.classes.get(basep) or (self.root_cls if basep == "self" else None)
+            if bc:
+                c = self.attr_class(bc, attr)
+        return c
+
+    # ------------------------------------------------------------------ statements
+    def call_fi(self, fi, args):
+        gen = self._is_gen.get(id(fi.node))
+        if gen is None:
+            gen = self._is_gen[id(fi.node)] = any(isinstance(x, (ast.Yield, ast.YieldFrom)) for x in walk_no_nested(fi.node))
+        if gen:
+            self.yields.append([])
+            try:
+                super().call_fi(fi, args)
+            finally:
+                out = self.yields.pop()
+            return out                       # a generator is run eagerly: the list of what it yields
+        return super().call_fi(fi, args)
+
+    def ev_Yield(self, n, env):
+        if not self.yields:
+            raise Unsupported("yield outside a generator call")
+        self.yields[-1].append(self.ev(n.value, env) if n.value is not None else None)
+        return None
+
+    def ev_YieldFrom(self, n, env):
+        v = self.concrete(self.ev(n.value, env))
+        if not self.yields or not isinstance(v, (list, tuple)):
+            raise Unsupported("yield from a symbolic iterable")
+        self.yields[-1].extend(v)
+        return None
+
+    def ev_NamedExpr(self, n, env):
+        v = self.ev(n.value, env)
+        self.assign(n.target, v, env)
+        return v
+
+    def ev_Starred(self, n, env):
+        raise Unsupported("starred expression")
+
+    def stmt(self, s, env):
+        if isinstance(s, ast.For):
+            it = self.concrete(self.ev(s.iter, env))
+            if isinstance(it, Sym) and self.seq_model is not None:
+                m = self.seq_model(it.path)
+                if m is not None:
+                    it = m
+            if isinstance(it, (list, tuple, range, dict)):
+                try:
+                    for x in it:
+                        if isinstance(x, RowModel) and isinstance(s.target, (ast.Tuple, ast.List)):
+                            x = (x.key,) + tuple(Sym(f"{x.tag}[{x.key}].{unparse(e)}") for e in s.target.elts[1:])
+                        self.assign(s.target, x, env)
+                        try:
+                            self.block(s.body, env)
+                        except _Continue:
+                            continue
+                except _Break:
+                    pass
+                else:
+                    self.block(s.orelse, env)
+                return
+            self.loops += 1
+            idx = Sym(f"#i{self.loops}")
+
+            def elem(x):
+                if isinstance(x, SymIter):
+                    if x.kind == "range":
+                        return idx
+                    if x.kind == "enumerate":
+                        return (idx, elem(x.items[0]))
+                    return tuple(elem(y) for y in x.items)
+                if isinstance(x, Sym):
+                    return Sym(f"{x.path}[{idx.path}]")
+                if isinstance(x, (list, tuple)):
+                    raise Unsupported("zip of a concrete and a symbolic sequence")
+                return Sym(f"{self.show(x)}[{idx.path}]")
+            seen = set()
+            lists = [v for v in env.values() if isinstance(v, list) and id(v) not in seen and not seen.add(id(v))]
+            for lst in lists:
+                lst.append(Marker("begin", idx.path))
+            self.effect("loop-begin", idx.path)
+            self.assign(s.target, elem(it), env)
+            try:
+                self.block(s.body, env)
+            except (_Continue, _Break):
+                pass
+            self.effect("loop-end", idx.path)
+            for lst in lists:
+                lst.append(Marker("end", idx.path))
+            return
+        if isinstance(s, ast.While):
+            n_it = 0
+            try:
+                while self.truth(self.ev(s.test, env)):
+                    n_it += 1
+                    if n_it > 20000:
+                        raise Unsupported("while loop does not terminate on the model")
+                    try:
+                        self.block(s.body, env)
+                    except _Continue:
+                        continue
+            except _Break:
+                pass
+            return
+        if isinstance(s, (ast.Delete, ast.Nonlocal)):
+            return
+        return super().stmt(s, env)
+
+    # ------------------------------------------------------------------ expressions
+    def compare(self, op, l, r, node):
+        lc, rc = self.concrete(l), self.concrete(r)
+        for x in (lc, rc):
+            if isinstance(x, Sym) and x.path.startswith(("pl.", "(pl.")):
+                return Sym(f"({self.show(lc)} {_OPS[type(op)]} {self.show(rc)})")     # a polars expression, not a condition
+        return super().compare(op, lc, rc, node)
+
+    def ev_Attribute(self, n, env):
+        base = self.ev(n.value, env)
+        if isinstance(base, Sym):
+            path = f"{base.path}.{n.attr}"
+            if path in self.stores:
+                return self.stores[path]
+            fi0 = env.get("__fi__")
+            mk = (path, base.cls, fi0.cls if (base.path == "self" and fi0 is not None) else None)
+            if mk in self._attr_memo:
+                return self._attr_memo[mk]
+            r = self._ev_attr_sym(n, env, base, path)
+            if isinstance(r, (Sym, str, int, float, bool, type(None))) or (isinstance(r, tuple) and all(isinstance(x, (str, int, float, bool, type(None), tuple)) for x in r)):
+                if path not in self.stores:
+                    self._attr_memo[mk] = r
+            return r
+        return self._ev_attr_sym(n, env, base, None)
+
+    def _ev_attr_sym(self, n, env, base, path):
+        if isinstance(base, Sym):
+            if n.attr == "height" and self.seq_model is not None:
+                m = self.seq_model(base.path)
+                if m is not None:
+                    return len(m)
+            bc = self.cls_of(base)
+            fi = env.get("__fi__")
+            if base.path == "self" and fi is not None and fi.cls:
+                bc = bc or fi.cls
+            if bc and "(" not in base.path:
+                for c0 in self.pm.mro(bc):
+                    ci = self.pm.classes.get(c0)
+                    if ci and n.attr in ci.class_assigns and not self.pm.is_pydantic(c0) and isinstance(ci.class_assigns[n.attr], (ast.Tuple, ast.Constant)):
+                        v = const_expr(self.pm, ci.module, ci.class_assigns[n.attr])
+                        if v is not NOC:
+                            return v
+            if bc and self.pm.find_method(bc, n.attr) is not None and not isinstance(getattr(n, "ctx", None), ast.Store):
+                return Sym(path)             # a bound method value: callable through ev_Call
+        if isinstance(base, tuple) and len(base) == 2 and base[0] == "class":
+            if self.pm.find_method(base[1].name, n.attr) is not None:
+                return ("method", base[1].name, n.attr)
+        if isinstance(base, list) and n.attr in ("append", "extend", "copy", "insert", "pop", "sort", "reverse", "index", "count"):
+            return ("listmethod", base, n.attr)
+        n2 = ast.Attribute(value=_Lit(base), attr=n.attr, ctx=ast.Load())
+        return super().ev_Attribute(n2, env)
+
+    def ev__Lit(self, n, env):
+        return n.v
+
+    def ev_Subscript(self, n, env):
+        base = self.concrete(self.ev(n.value, env))
+        if isinstance(base, Sym) and self.seq_model is not None and not isinstance(n.slice, ast.Slice):
+            m = self.seq_model(base.path)
+            k = self.concrete(self.ev(n.slice, env)) if m is not None else None
+            if m is not None and isinstance(k, int):
+                try:
+                    return m[k]
+                except IndexError:
+                    raise _Raise("IndexError")
+            if m is not None:
+                return Sym(f"{base.path}[{self.show(k)}]")
+        if isinstance(base, RowModel):
+            k = self.concrete(self.ev(n.slice, env))
+            return base.key if k == 0 else Sym(f"{base.tag}[{base.key}][{self.show(k)}]")
+        if isinstance(base, (bytes, bytearray)):
+            if isinstance(n.slice, ast.Slice):
+                lo = self.concrete(self.ev(n.slice.lower, env)) if n.slice.lower else None
+                hi = self.concrete(self.ev(n.slice.upper, env)) if n.slice.upper else None
+                st = self.concrete(self.ev(n.slice.step, env)) if n.slice.step else None
+                if any(isinstance(x, Sym) for x in (lo, hi, st)):
+                    raise Unsupported("symbolic slice of concrete bytes")
+                return base[lo:hi:st]
+            k = self.concrete(self.ev(n.slice, env))
+            if isinstance(k, Sym):
+                raise Unsupported("symbolic index into concrete bytes")
+            try:
+                return base[k]
+            except IndexError:
+                raise _Raise("IndexError")
+        return super().ev_Subscript(ast.Subscript(value=_Lit(base), slice=n.slice, ctx=ast.Load()), env)
+
+    def _elts(self, elts, env):
+        out = []
+        for e in elts:
+            if isinstance(e, ast.Starred):
+                v = self.concrete(self.ev(e.value, env))
+                if not isinstance(v, (list, tuple)):
+                    raise Unsupported("unpacking of a symbolic sequence")
+                out.extend(v)
+            else:
+                out.append(self.ev(e, env))
+        return out
+
+    def ev_List(self, n, env):
+        return self._elts(n.elts, env)
+
+    def ev_Tuple(self, n, env):
+        return tuple(self._elts(n.elts, env))
+
+    def ev_Set(self, n, env):
+        return tuple(self._elts(n.elts, env))
+
+    def model_call(self, name, args, kw):
+        try:
+            return self.call_model[name]([self.concrete(a) if isinstance(a, Sym) else a for a in args], kw)
+        except (NeedAtom, Unsupported, _Raise):
+            raise
+        except Exception as e:       # the modelled external raises: an exception of the interpreted program
+            raise _Raise(type(e).__name__)
+
+    def ev_ListComp(self, n, env):
+        if len(n.generators) >= 1 and not any(g.is_async for g in n.generators):
+            out = []
+
+            def rec(gi, e):
+                if gi == len(n.generators):
+                    out.append(self.ev(n.elt, e))
+                    return
+                g = n.generators[gi]
+                it = self.concrete(self.ev(g.iter, e))
+                if isinstance(it, Sym) and self.seq_model is not None and self.seq_model(it.path) is not None:
+                    it = self.seq_model(it.path)
+                if isinstance(it, dict):
+                    it = list(it)
+                if not isinstance(it, (list, tuple, range)):
+                    raise _Symbolic()
+                for x in it:
+                    e2 = dict(e)
+                    self.assign(g.target, x, e2)
+                    if all(self.truth(self.ev(c, e2)) for c in g.ifs):
+                        rec(gi + 1, e2)
+            try:
+                rec(0, env)
+                return out
+            except _Symbolic:
+                pass
+        return Sym(f"[{unparse(n)[:60]}]")
+
+    ev_GeneratorExp = ev_ListComp
+
+    def ev_JoinedStr(self, n, env):
+        parts = []
+        for v in n.values:
+            if isinstance(v, ast.Constant):
+                parts.append(str(v.value))
+            else:
+                x = self.concrete(self.ev(v.value, env))
+                parts.append("‹" + x.path + "›" if isinstance(x, Sym) else str(x))
+        return "".join(parts)
+
+    def binop(self, op, l, r, node):
+        l, r = self.concrete(l), self.concrete(r)
+        if isinstance(op, ast.Add) and isinstance(l, list) and isinstance(r, (Sym, tuple)):
+            return l + (list(r) if isinstance(r, tuple) else [r])          # accumulator + content of an emitter
+        if isinstance(op, ast.Add) and isinstance(r, list) and isinstance(l, Sym):
+            return [l] + r
+        if isinstance(op, ast.Add) and (isinstance(l, str) and isinstance(r, Sym) or isinstance(l, Sym) and isinstance(r, str)):
+            return (l if isinstance(l, str) else "‹" + l.path + "›") + (r if isinstance(r, str) else "‹" + r.path + "›")
+        return super().binop(op, l, r, node)
+
+    def opaque_sym(self, name: str, args, kw=None) -> Sym:
+        a = [str(self.show(self.concrete(x) if not isinstance(x, (list, tuple, dict)) else x)) for x in args]
+        a += [f"{k}={self.show(v)}" for k, v in (kw or {}).items()]
+        return Sym(f"{name}({', '.join(a)})")
+
+    def may_inline(self, fi) -> bool:
+        if fi.short.split(".")[-1] in self.opaque:
+            return False
+        if self.inline is not None:
+            return bool(self.inline(fi))
+        return bool(fi.cls and self.root_cls and (fi.cls in self.pm.mro(self.root_cls) or self.root_cls in self.pm.mro(fi.cls)))
+
+    def invoke(self, fi, recv, args, n, env, kw=None):
+        n_eff = len(self.run_state.effects)
+        saved = dict(self.stores)
+        try:
+            return super().invoke(fi, recv, args, n, env, kw)
+        except Unsupported:
+            del self.run_state.effects[n_eff:]
+            self.stores = saved
+            return self.opaque_sym(fi.short, args, kw)
+
+    def call_named(self, cls: str | None, name: str, recv, args, kw, n, env):
+        """call of a project function identified by (class, name): model, effect, inline or opaque"""
+        if name in self.call_model:
+            return self.model_call(name, args, kw)
+        label = f"{recv.path}.{name}" if isinstance(recv, Sym) else (f"{cls}.{name}" if cls else name)
+        if name in self.effect_calls:
+            self.effect("call", name, recv.path if isinstance(recv, Sym) else (cls or ""), tuple(self.show(a) for a in args), {k: self.show(v) for k, v in kw.items()})
+            return Sym(f"{label}(…)#{len(self.run_state.effects)}")
+        fi = self.pm.find_method(cls, name) if cls else next((f for f in self.pm.funcs.values() if f.short == name and f.cls is None), None)
+        if fi is not None and self.may_inline(fi):
+            return self.invoke(fi, recv if (fi.cls and not fi.is_static) else None, args, n, env, kw)
+        return self.opaque_sym(label, args, kw)
+
+    def ev_Call(self, n, env):
+        f = n.func
+        if any(isinstance(a, ast.Starred) for a in n.args) or any(k.arg is None for k in n.keywords):
+            raise Unsupported("star arguments")
+        if isinstance(f, ast.Name):
+            nm = f.id
+            bound = env.get(nm)
+            if nm in ("range", "enumerate", "zip", "sorted", "reversed", "iter", "next", "id", "repr", "abs", "round", "sum", "frozenset") and bound is None:
+                args = [self.concrete(self.ev(a, env)) for a in n.args]
+                kw = {k.arg: self.concrete(self.ev(k.value, env)) for k in n.keywords}
+                if nm == "range":
+                    if all(isinstance(v, int) for v in args):
+                        return range(*args)
+                    if len(args) == 1 or (len(args) == 2 and args[0] == 0):
+                        return SymIter("range", [], str(self.show(args[-1])))
+                    return Sym("range(" + ", ".join(str(self.show(v)) for v in args) + ")")
+                if nm == "enumerate":
+                    start = kw.get("start", args[1] if len(args) > 1 else 0)
+                    if isinstance(args[0], (list, tuple, range)) and isinstance(start, int):
+                        return list(enumerate(args[0], start))
+                    if start != 0:
+                        raise Unsupported("enumerate of a symbolic sequence with a start")
+                    return SymIter("enumerate", [args[0]])
+                if nm == "zip":
+                    if all(isinstance(a, (list, tuple, range)) for a in args):
+                        return list(zip(*args))
+                    return SymIter("zip", list(args))
+                if nm in ("sorted", "reversed"):
+                    if isinstance(args[0], (list, tuple, range)) and not any(isinstance(x, Sym) for x in args[0]) and not kw:
+                        return sorted(args[0]) if nm == "sorted" else list(reversed(args[0]))
+                    return self.opaque_sym(nm, args, kw)
+                if nm == "frozenset":
+                    return tuple(args[0]) if args and isinstance(args[0], (list, tuple)) else (self.opaque_sym(nm, args) if args else ())
+                if nm == "sum" and args and isinstance(args[0], (list, tuple)) and all(isinstance(x, (int, float)) for x in args[0]):
+                    return sum(args[0])
+                if nm in ("abs", "round") and args and isinstance(args[0], (int, float)) and not kw and len(args) == 1:
+                    return abs(args[0]) if nm == "abs" else round(args[0])
+                return self.opaque_sym(nm, args, kw)
+            if nm in ("deepcopy", "copy") and bound is None and len(n.args) >= 1:
+                a0 = self.concrete(self.ev(n.args[0], env))
+                new = self.fresh_copy(a0, deep=nm == "deepcopy")
+                if isinstance(a0, Sym):
+                    self.effect("copy", new.path, a0.path, "deep" if nm == "deepcopy" else "shallow")
+                return new
+            if nm == "len" and bound is None and len(n.args) == 1:
+                v = self.concrete(self.ev(n.args[0], env))
+                if isinstance(v, Sym):
+                    m = self.seq_model(v.path) if self.seq_model is not None else None
+                    return len(m) if m is not None else Sym(f"len({v.path})")
+                if isinstance(v, SymIter):
+                    return Sym(f"len({v.kind})")
+                return len(v)
+            if isinstance(bound, Sym) and "." in bound.path and "(" not in bound.path.rsplit(".", 1)[1]:
+                basep, m = bound.path.rsplit(".", 1)        # a bound method held in a local
+                recv = Sym(basep, self.classes.get(basep))
+                args = [self.ev(a, env) for a in n.args]
+                kw = {k.arg: self.ev(k.value, env) for k in n.keywords}
+                return self.call_method_on(recv, m, args, kw, n, env)
+            if isinstance(bound, tuple) and bound and bound[0] == "method":
+                args = [self.ev(a, env) for a in n.args]
+                kw = {k.arg: self.ev(k.value, env) for k in n.keywords}
+                return self.call_named(bound[1], bound[2], None, args, kw, n, env)
+            if isinstance(bound, tuple) and bound and bound[0] == "closure":
+                args = [self.ev(a, env) for a in n.args]
+                return self.call_closure(bound, args, n, env)
+            if bound is None and nm not in _DT_BUILTINS:
+                fi = env.get("__fi__")
+                r = self.pm.resolve(fi.module, nm) if fi else None
+                if r is None or r[0] == "func" or r[0] == "ext":
+                    args = [self.ev(a, env) for a in n.args]
+                    kw = {k.arg: self.ev(k.value, env) for k in n.keywords}
+                    if r is not None and r[0] == "func":
+                        if nm in self.call_model:
+                            return self.model_call(nm, args, kw)
+                        if nm in self.effect_calls:
+                            self.effect("call", nm, "", tuple(self.show(a) for a in args), {k: self.show(v) for k, v in kw.items()})
+                            return Sym(f"{nm}(…)#{len(self.run_state.effects)}")
+                        if self.may_inline(r[1]) or (self.inline is None and r[1].cls is None and r[1].module == (fi.module if fi else None) and nm not in self.opaque):
+                            return self.invoke(r[1], None, args, n, env, kw)
+                        return self.opaque_sym(nm, args, kw)
+                    if any(f2.short == nm and f2.cls is None for f2 in self.pm.funcs.values()):
+                        return self.call_named(None, nm, None, args, kw, n, env)     # imported inside the function
+                    if nm in self.pm.classes:
+                        self.effect("construct", nm, {k: self.show(v) for k, v in kw.items()})
+                        return Sym(f"{nm}(…)#{len(self.run_state.effects)}", nm)
+                    return self.opaque_sym(nm, args, kw)
+            return super().ev_Call(n, env)
+        if isinstance(f, ast.Attribute):
+            m = f.attr
+            base = self.ev(f.value, env)
+            if isinstance(base, list) and m in ("append", "extend", "insert", "copy", "index", "count", "pop", "sort", "reverse"):
+                args = [self.concrete(self.ev(a, env)) for a in n.args]
+                if m == "append":
+                    base.append(args[0])
+                elif m == "extend":
+                    if isinstance(args[0], (list, tuple)):
+                        base.extend(args[0])
+                    else:
+                        base.append(args[0])      # the (symbolic) content of one emitter
+                elif m == "insert" and isinstance(args[0], int):
+                    base.insert(args[0], args[1])
+                elif m == "copy":
+                    return list(base)
+                elif m == "pop" and (not args or isinstance(args[0], int)) and base:
+                    return base.pop(*args)
+                elif m == "reverse":
+                    base.reverse()
+                else:
+                    raise Unsupported(f"list.{m} in decision logic")
+                return None
+            if isinstance(base, str) and m == "join" and len(n.args) == 1:
+                a = self.concrete(self.ev(n.args[0], env))
+                if isinstance(a, Sym):
+                    return a
+                if isinstance(a, (list, tuple)):
+                    flat = list(_flat(a))             # an element that is itself a joined sequence of pieces is spliced in
+                    if all(isinstance(x, str) for x in flat):
+                        return base.join(flat)
+                    if base.strip() == "" and all(isinstance(x, (str, Sym, Marker)) for x in flat):
+                        if all(isinstance(x, (str, Sym)) for x in flat) and len(flat) <= 64 and not any(isinstance(x, Sym) and re.search(r"\(…\)(#\d+)?$", x.path) for x in flat):
+                            return base.join(x if isinstance(x, str) else "‹" + x.path + "›" for x in flat)
+                        return flat                   # the sequence of emitted pieces (joined by whitespace only)
+                raise Unsupported("join of " + repr(a)[:40])
+            if isinstance(base, tuple) and len(base) == 2 and base[0] == "class":
+                args = [self.ev(a, env) for a in n.args]
+                kw = {k.arg: self.ev(k.value, env) for k in n.keywords}
+                return self.call_named(base[1].name, m, None, args, kw, n, env)
+            if isinstance(base, Sym):
+                args = [self.ev(a, env) for a in n.args]
+                kw = {k.arg: self.ev(k.value, env) for k in n.keywords}
+                return self.call_method_on(base, m, args, kw, n, env)
+            n2 = ast.Call(func=ast.Attribute(value=_Lit(base), attr=m, ctx=ast.Load()), args=n.args, keywords=n.keywords)
+            return super().ev_Call(n2, env)
+        return super().ev_Call(n, env)
+
+    def call_method_on(self, base: Sym, m: str, args, kw, n, env):
+        if m in self.call_model:
+            return self.model_call(m, args, kw)
+        if m in self.effect_calls:
+            self.effect("call", m, base.path, tuple(self.show(a) for a in args), {k: self.show(v) for k, v in kw.items()})
+            return Sym(f"{base.path}.{m}(…)#{len(self.run_state.effects)}")
+        if m == "get" and self.cls_of(base) is None:
+            k = self.concrete(args[0])
+            p = f"{base.path}.get({self.show(k)})"
+            return self.stores.get(p, Sym(p))
+        if m in ("copy", "model_copy", "clone", "__deepcopy__", "__copy__") and not args:
+            new = self.fresh_copy(base, deep=bool(kw.get("deep")) or m == "__deepcopy__")
+            self.effect("copy", new.path, base.path, "deep" if (kw.get("deep") or m == "__deepcopy__") else "shallow")
+            upd = kw.get("update")
+            if isinstance(upd, dict):
+                for k, v in upd.items():
+                    if isinstance(k, str):
+                        self.stores[f"{new.path}.{k}"] = v
+                        self.effect("store", new.path, k, self.show(v))
+            elif upd is not None:
+                raise Unsupported("model_copy(update=<symbolic>)")
+            return new
+        bc = self.cls_of(base)
+        fi = env.get("__fi__")
+        if base.path == "self" and fi is not None and fi.cls:
+            bc = fi.cls
+        got = self.pm.find_method(bc, m) if bc else None
+        if got is not None and self.may_inline(got):
+            return self.invoke(got, base, args, n, env, kw)
+        return self.opaque_sym(f"{base.path}.{m}", args, kw)
+
+
+class _Lit(ast.expr):
+    """an already evaluated value inside a synthetic node"""
+    _fields = ()
+
+    def __init__(self, v):
+        super().__init__()
+        self.v = v
+
+
+class _Symbolic(Exception):
+    pass
+
+
+_DT_BUILTINS = {"deepcopy", "copy", "len", "bool", "int", "str", "float", "isinstance", "hasattr", "getattr", "setattr", "any", "all",
+                "min", "max", "list", "tuple", "dict", "set", "print", "cast"}
+
+# ===============================================================================================================
+# rules
+# ===============================================================================================================
+
 PLACEMENTS = ["first", "last", "all"]
+PLACEMENT_ATOMS = {f"document.rtf_page.{f}": PLACEMENTS for f in ("page_title", "page_footnote", "page_source")}
 
 
 def spec_show(loc, first, last) -> bool:
@@ -28,350 +684,651 @@ def predicate_tables(ctx: Ctx, rule: str) -> None:
     pm = ctx.pm
     for short, pname in (("PageRenderer._should_show", "location"), ("PageFeatureProcessor._should_show_element", "element_location")):
         fi = pm.func(short)
-        dt = DT(pm, atoms={pname: PLACEMENTS + ["<other>"], "page.is_first_page": [True, False], "page.is_last_page": [True, False]},
-                classes={"page": "PageContext"})
+        params = [a.arg for a in fi.node.args.args if a.arg != "self"]
+        if len(params) != 2:
+            ctx.gap(rule, f"{short}: the placement predicate no longer takes (placement, page)")
+            continue
+        pname, pg = params
+        dt = DT(pm, atoms={pname: PLACEMENTS + ["<other>"], f"{pg}.is_first_page": [True, False], f"{pg}.is_last_page": [True, False]},
+                classes={pg: "PageContext"})
         rows = 0
-        for loc, first, last in itertools.product(PLACEMENTS + ["<other>"], [True, False], [True, False]):
-            val = {pname: loc, "page.is_first_page": first, "page.is_last_page": last}
-            try:
-                r = dt.run(fi, {pname: Sym(pname), "page": Sym("page", "PageContext")}, val)
-            except NeedAtom as e:
-                ctx.violation(rule, short, "depends on " + e.key, fi.where(), f"{short}: the placement predicate depends on `{e.key}`, which is not one of (placement, is_first_page, is_last_page)")
-                break
-            rows += 1
-            want = spec_show(loc, first, last)
-            got = bool(dt.truth(r.ret)) if r.raised is None else None
-            if got != want:
-                ctx.violation(rule, short, f"({loc},{first},{last}) -> {got}", fi.where(),
-                              f"{short}(placement={loc!r}, first={first}, last={last}) = {got}, specification says {want}")
+        try:
+            for loc, first, last in itertools.product(PLACEMENTS + ["<other>"], [True, False], [True, False]):
+                val = {pname: loc, f"{pg}.is_first_page": first, f"{pg}.is_last_page": last}
+                try:
+                    r = dt.run(fi, {pname: Sym(pname), pg: Sym(pg, "PageContext")}, val)
+                except NeedAtom as e:
+                    ctx.violation(rule, short, "depends on " + e.key, fi.where(), f"{short}: the placement predicate depends on `{e.key}`, which is not one of (placement, is_first_page, is_last_page)")
+                    break
+                rows += 1
+                want = spec_show(loc, first, last)
+                got = bool(dt.truth(r.ret)) if r.raised is None else None
+                if got != want:
+                    ctx.violation(rule, short, f"({loc},{first},{last}) -> {got}", fi.where(),
+                                  f"{short}(placement={loc!r}, first={first}, last={last}) = {got}, specification says {want}")
+        except (Unsupported, NeedAtom) as e:
+            ctx.gap(rule, f"{short}: the placement predicate is outside the decision-table subset ({e})")
+            continue
         ctx.instance(rule, fi.where(), f"{short}: decision table over placement x first x last, {rows} rows, equals spec")
 
 
-def _guard_tests(node, stop):
+def _flat(x):
+    if isinstance(x, (list, tuple)):
+        for y in x:
+            yield from _flat(y)
+    else:
+        yield x
+
+
+def emit_of(x) -> str | None:
+    """name of the emitter whose (symbolic) result this element is"""
+    if isinstance(x, Sym):
+        m = re.search(r"([A-Za-z_][A-Za-z_0-9]*)\(…\)(#\d+)?$", x.path)
+        if m:
+            return m.group(1)
+    if isinstance(x, str):
+        m = re.search(r"‹[^‹›]*?([A-Za-z_][A-Za-z_0-9]*)\(…\)(#\d+)?›", x)
+        if m:
+            return m.group(1)
+    return None
+
+
+def emitted(ret) -> list[tuple[str, bool]] | None:
+    """(emitter name | literal text, inside a symbolic loop) for every element of a returned accumulator"""
+    if not isinstance(ret, (list, tuple)):
+        return None
     out = []
-    p = getattr(node, "_parent", None)
-    child = node
-    while p is not None and p is not stop:
-        if isinstance(p, ast.If) and any(child is s or any(child is x for x in ast.walk(s)) for s in p.body):
-            out.append(p.test)
-        child = p
-        p = getattr(p, "_parent", None)
+    depth = 0
+    for x in _flat(ret):
+        if isinstance(x, Marker):
+            depth += 1 if x.kind == "begin" else -1
+            continue
+        nm = emit_of(x)
+        if nm is not None:
+            out.append((nm, depth > 0))
+        elif isinstance(x, str):
+            out.append(("lit:" + x, depth > 0))
     return out
 
 
-def render_guards(ctx: Ctx, rule: str) -> None:
-    """each emit site in PageRenderer.render is shown iff component present and placement predicate of the right field"""
+def _presence(v: dict, comp: str):
+    """(present, consulted): every consulted atom about the existence of document.<comp> says it exists"""
+    pat = re.compile(r"^(bool\()?(copy(#\d+)?\()?document\." + comp + r"\)?(\.text)?\)?( is None)?$")
+    keys = [k for k in v if pat.match(k)]
+    return all((not v[k]) if k.endswith(" is None") else bool(v[k]) for k in keys), bool(keys)
+
+
+def _shown3(v: dict, field: str, first, last):
+    """three-valued spec: None when the code decided without consulting an atom the specification needs"""
+    loc = v.get(f"document.rtf_page.{field}")
+    if loc is None:
+        return None
+    if loc == "all":
+        return True
+    return first if loc == "first" else last if loc == "last" else False
+
+
+RENDER_ORDER = ["generate_page_break", "encode_title", "encode_subline", "_generate_subline_header", "_render_column_headers",
+                "encode_spanning_row", "_render_body", "encode_footnote", "encode_source"]
+RENDER_PLACED = {"encode_title": ("rtf_title", "page_title"), "encode_subline": ("rtf_subline", "page_title"),
+                 "encode_footnote": ("rtf_footnote", "page_footnote"), "encode_source": ("rtf_source", "page_source")}
+RELEVANT = ("rtf_title", "rtf_subline", "rtf_footnote", "rtf_source", "rtf_page.page_", "is_first_page", "is_last_page", "needs_header",
+            "rtf_column_header")
+
+
+def render_table(ctx: Ctx) -> dict:
+    """PageRenderer.render evaluated as a decision table: for every configuration, which blocks reach the returned
+    page elements and in which order.  R06.1: placed components appear iff present ∧ spec(placement field);
+    R06.2: block order, once-ness, page break iff not first, column headers iff needs_header ∧ configured."""
+    memo = ctx.__dict__.setdefault("_memo", {}).get("render_table")
+    if memo is not None:
+        return memo
     pm = ctx.pm
     fi = pm.func("PageRenderer.render")
-    sites = {"encode_title": ("rtf_title", "page_title"), "encode_subline": ("rtf_subline", "page_title"),
-             "encode_footnote": ("rtf_footnote", "page_footnote"), "encode_source": ("rtf_source", "page_source")}
-    for callee, (comp, field) in sites.items():
-        calls = [c for c in walk_no_nested(fi.node) if isinstance(c, ast.Call) and dotted(c.func).split(".")[-1] == callee]
-        if len(calls) != 1:
-            ctx.violation(rule, fi.short, f"{callee} x{len(calls)}", fi.where(), f"render calls {callee} {len(calls)} times (exactly once per page expected)")
-            continue
-        call = calls[0]
-        tests = _guard_tests(call, fi.node)
-        if not tests:
-            ctx.violation(rule, fi.short, f"{callee} unguarded", fi.where(call), f"{callee} is emitted on every page regardless of rtf_page.{field}")
-            continue
-        test = tests[-1]      # outermost guard
-        dt = DT(pm, atoms={f"document.rtf_page.{f}": PLACEMENTS for f in ("page_title", "page_footnote", "page_source")} |
-                {"page.is_first_page": [True, False], "page.is_last_page": [True, False]},
-                classes={"page": "PageContext", "document": "RTFDocument", "self": "PageRenderer"})
-        env = {"document": Sym("document", "RTFDocument"), "page": Sym("page", "PageContext"), "self": Sym("self", "PageRenderer"), "__fi__": fi}
-        rows = bad = 0
-        pending = [dict()]
-        while pending:
-            v = pending.pop()
-            dt.val = v
-            dt.stores = {}
-            dt.run_state.effects = []
-            dt.depth = 0
-            try:
-                got = dt.truth(dt.ev(test, env))
-            except NeedAtom as e:
-                for x in e.domain:
-                    pending.append({**v, e.key: x})
-                continue
-            rows += 1
-            present = all(val for k, val in v.items() if k.startswith("bool(document." + comp))
-            other_atoms = [k for k in v if not (k.startswith("bool(document." + comp) or k in (f"document.rtf_page.{field}", "page.is_first_page", "page.is_last_page"))]
-            loc = v.get(f"document.rtf_page.{field}")
-            if loc is None:
-                if present and got:
-                    ctx.violation(rule, fi.short, f"{callee} ignores {field}", fi.where(call), f"{callee} can be shown without consulting rtf_page.{field}")
-                    bad += 1
-                continue
-            want = present and spec_show(loc, v.get("page.is_first_page", False), v.get("page.is_last_page", False))
-            if "page.is_first_page" not in v and loc == "first" or "page.is_last_page" not in v and loc == "last":
-                pass
-            if got != want and not other_atoms:
-                bad += 1
-                ctx.violation(rule, fi.short, f"{callee} guard at {sorted(v.items())}", fi.where(call),
-                              f"render: {callee} shown={got} but specification says {want} for {v}")
-            elif other_atoms and got != want:
-                bad += 1
-                ctx.violation(rule, fi.short, f"{callee} depends on {other_atoms}", fi.where(call),
-                              f"render: showing {comp} also depends on {other_atoms} (shown={got}, expected {want} at {v})")
-        ctx.instance(rule, fi.where(call), f"render: {callee} guard `{unparse(test)[:80]}` over {rows} valuations, {bad} disagreement(s) with present∧spec({field})")
+    ps = [a.arg for a in fi.node.args.args]
+    out = {"fi": fi, "rows": [], "error": None}
+    ctx.__dict__["_memo"]["render_table"] = out
+    if len(ps) != 3:
+        out["error"] = "render no longer takes (self, document, page)"
+        return out
+    _s, doc, pg = ps
+    atoms = {k.replace("document.", doc + "."): v for k, v in PLACEMENT_ATOMS.items()}
+    atoms.update({f"{pg}.is_first_page": [True, False], f"{pg}.is_last_page": [True, False], f"{pg}.needs_header": [True, False]})
+    args = {"self": Sym("self", "PageRenderer"), doc: Sym(doc, "RTFDocument"), pg: Sym(pg, "PageContext")}
+    effect = set(RENDER_ORDER) | {"encode_figure", "encode_page_header", "encode_page_footer"}
+    for regime, extra in ((True, {}), (False, {f"bool({doc}.{c})": [True] for c, _f in RENDER_PLACED.values()} |
+                                         {f"bool({doc}.{c}.text)": [True] for c, _f in RENDER_PLACED.values()})):
+        dt = FlowDT(pm, atoms={**atoms, **extra}, effect_calls=effect, classes={pg: "PageContext", doc: "RTFDocument", "self": "PageRenderer"},
+                    relevant=RELEVANT, regime=regime, max_atoms=40)
+        try:
+            rows = dt.table(fi, args, limit=60000)
+        except (Unsupported, NeedAtom) as e:
+            out["error"] = f"render is outside the decision-table subset ({e})"
+            return out
+        for v, r in rows:
+            v = {k.replace(doc + ".", "document.").replace(pg + ".", "page."): x for k, x in v.items()}
+            out["rows"].append((v, r, emitted(r.ret), regime))
+    ctx.extra["render_atoms_pinned"] = sorted(dt.pinned)[:20]
+    return out
 
 
-def placement_rule(ctx: Ctx, rule: str, figure_only: bool = False) -> None:
-    """inline placement predicates of _encode_figure_only (title / footnote / source per figure page)"""
-    pm = ctx.pm
-    fi = pm.func("UnifiedRTFEncoder._encode_figure_only")
-    loops = [n for n in walk_no_nested(fi.node) if isinstance(n, ast.For)]
-    if not loops:
-        ctx.violation(rule, fi.short, "no figure loop", fi.where(), "figure pages are not produced by a per-figure loop")
+def r06_1_render(ctx: Ctx, rule: str = "R06.1") -> None:
+    t = render_table(ctx)
+    fi = t["fi"]
+    if t["error"]:
+        ctx.gap(rule, t["error"])
         return
-    lp = loops[0]
-    iv = lp.target.id if isinstance(lp.target, ast.Name) else "i"
-    # locals defined before/inside the loop that the guards use
-    from ..linform import single_assign_env
-    env_ast = single_assign_env(fi.node)
-    want_sites = {"title": ("page_title", "append(title)"), "footnote": ("page_footnote", "encode_footnote"), "source": ("page_source", "encode_source")}
-    if not figure_only:
-        want_sites["subline"] = ("page_title", "encode_subline")
-    for name, (field, marker) in want_sites.items():
-        target_if = None
-        for s in lp.body:
-            if isinstance(s, ast.If) and any(marker in unparse(b) for b in s.body):
-                target_if = s
-        if target_if is None:
-            ctx.violation(rule, fi.short, f"{name} site missing", fi.where(lp), f"figure path: the {name} is no longer emitted per figure page")
+    rows = t["rows"]
+    if any(seq is None for _v, r, seq, _g in rows if r.raised is None):
+        ctx.gap(rule, "render does not return the accumulated list of page elements on every path")
+        return
+    for callee, (comp, field) in RENDER_PLACED.items():
+        ever = any(seq and any(nm == callee for nm, _l in seq) for _v, _r, seq, _g in rows)
+        if not ever:
+            ctx.gap(rule, f"no path of PageRenderer.render lets the result of {callee} reach the page elements (emit site not re-identified)")
             continue
-        if field not in _expand(target_if.test, env_ast):
-            ctx.instance(rule, fi.where(target_if), f"figure path: {name} guard `{unparse(target_if.test)}` does not consult rtf_page.{field}")
-            ctx.violation(rule, fi.short, f"{name} guard " + unparse(target_if.test), fi.where(target_if),
-                          f"figure path: the {name} is shown under `{unparse(target_if.test)}` instead of on the pages selected by rtf_page.{field}")
-            continue
-        bad = rows = 0
-        for loc, first, last, present in itertools.product(PLACEMENTS, [True, False], [True, False], [True, False]):
-            dt = DT(pm, atoms={f"document.rtf_page.{field}": PLACEMENTS}, classes={"document": "RTFDocument"})
-            dt.val = {f"document.rtf_page.{field}": loc, "is_first": first, "is_last": last}
-            env = {"document": Sym("document", "RTFDocument"), "is_first": first, "is_last": last, "__fi__": fi,
-                   "footnote_component": (Sym("footnote_component") if present else None)}
-            # single-assignment locals (show_*_on_all)
-            for k, v in env_ast.items():
-                if k.startswith("show_"):
-                    try:
-                        env[k] = dt.ev(v, env)
-                    except NeedAtom:
-                        pass
-            dt.val["document.rtf_source is None"] = not present
-            dt.val["bool(document.rtf_source)"] = present
-            dt.val["bool(document.rtf_subline)"] = present
-            dt.val["document.rtf_subline is None"] = not present
-            dt.val["bool(footnote_component)"] = present
-            dt.val["footnote_component is None"] = not present
-            try:
-                got = dt.truth(dt.ev(target_if.test, env))
-            except NeedAtom as e:
-                ctx.violation(rule, fi.short, f"{name} depends on {e.key}", fi.where(target_if), f"figure path: showing the {name} depends on `{e.key}`")
-                bad += 1
-                break
-            rows += 1
-            want = (present if name != "title" else True) and spec_show(loc, first, last)
-            if got != want:
-                bad += 1
-                ctx.violation(rule, fi.short, f"{name} ({loc},{first},{last},{present}) -> {got}", fi.where(target_if),
-                              f"figure path: {name} shown={got} for placement={loc!r}, first={first}, last={last}, present={present}; specification says {want}")
-        ctx.instance(rule, fi.where(target_if), f"figure path: {name} guard `{unparse(target_if.test)[:70]}` over {rows} rows, {bad} disagreement(s)")
-    # is_first / is_last definitions
-    defs = {unparse(a.targets[0]): unparse(a.value) for a in ast.walk(lp) if isinstance(a, ast.Assign) and len(a.targets) == 1}
-    ok = defs.get("is_first") == f"{iv} == 0" and defs.get("is_last") in (f"{iv} == num - 1", f"{iv} == len(figs) - 1")
-    ctx.instance(rule, fi.where(lp), f"figure path: is_first = {defs.get('is_first')}, is_last = {defs.get('is_last')}")
-    if not ok:
-        ctx.violation(rule, fi.short, f"first/last {defs.get('is_first')} / {defs.get('is_last')}", fi.where(lp), "figure path: first/last page are not the first/last figure")
-
-
-def _expand(e, env, depth=0) -> str:
-    txt = unparse(e)
-    if depth < 3:
-        for n in ast.walk(e):
-            if isinstance(n, ast.Name) and n.id in env:
-                txt += " " + _expand(env[n.id], env, depth + 1)
-    return txt
-
-
-ORDER = ["generate_page_break", "encode_title", "encode_subline", "_generate_subline_header", "_render_column_headers",
-         "encode_spanning_row", "_render_body", "encode_footnote", "encode_source"]
+        bad: dict[str, list] = {}
+        n = 0
+        for v, r, seq, _g in rows:
+            if r.raised is not None or seq is None:
+                continue
+            n += 1
+            got = any(nm == callee for nm, _l in seq)
+            present, _c = _presence(v, comp)
+            sh = _shown3(v, field, v.get("page.is_first_page"), v.get("page.is_last_page"))
+            if not present:
+                if got:
+                    bad.setdefault(f"{callee} shown although document.{comp} is absent or empty", []).append(v)
+                continue
+            if sh is None:
+                what = f"rtf_page.{field}" if f"document.rtf_page.{field}" not in v else ("is_first_page" if v[f"document.rtf_page.{field}"] == "first" else "is_last_page")
+                bad.setdefault(f"{callee} ignores {what}", []).append(v)
+            elif got != sh:
+                bad.setdefault(f"{callee} shown={got} where rtf_page.{field} says {sh}", []).append(v)
+        ctx.instance(rule, fi.where(), f"render: {callee} reaches the page elements iff document.{comp} present ∧ spec(rtf_page.{field}) over {n} configurations, "
+                     f"{sum(len(x) for x in bad.values())} disagreement(s)")
+        for k, vs in sorted(bad.items()):
+            ex = {a: b for a, b in vs[0].items() if any(s in a for s in (comp, field, "is_first", "is_last"))}
+            ctx.violation(rule, fi.short, k, fi.where(), f"render: {k} on {len(vs)} configuration(s), e.g. {ex}")
 
 
 def r06_2(ctx: Ctx) -> None:
+    t = render_table(ctx)
+    fi = t["fi"]
+    if t["error"]:
+        ctx.gap("R06.2", t["error"])
+        return
+    rows = [(v, r, seq) for v, r, seq, _g in t["rows"] if r.raised is None and seq is not None]
+    if not rows:
+        ctx.gap("R06.2", "no evaluated path of render returns its page elements")
+        return
+    seen = set()
+    bad: dict[str, dict] = {}
+    for v, r, seq in rows:
+        names = [(nm, lp) for nm, lp in seq if nm in RENDER_ORDER]
+        seen.update(nm for nm, _l in names)
+        for (a, _la), (b, _lb) in zip(names, names[1:]):
+            if RENDER_ORDER.index(a) > RENDER_ORDER.index(b):
+                bad.setdefault(f"{b} !< {a}", v)
+        for nm in set(n_ for n_, _l in names):
+            k = sum(1 for n_, _l in names if n_ == nm)
+            if k > 1:
+                bad.setdefault(f"{nm} x{k}", v)
+        for nm, lp in names:
+            if lp and nm != "encode_spanning_row":
+                bad.setdefault(f"{nm} in loop", v)
+        got = any(nm == "generate_page_break" for nm, _l in names)
+        first = v.get("page.is_first_page")
+        if first is None or got != (not first):
+            bad.setdefault("page break guard " + ("ignores is_first_page" if first is None else f"shown={got} on first={first}"), v)
+        got = any(nm == "_render_column_headers" for nm, _l in names)
+        nh, ch = v.get("page.needs_header"), v.get("bool(document.rtf_column_header)")
+        want = False if nh is False or ch is False else True if (nh and ch) else None
+        if want is None or got != want:
+            bad.setdefault("header guard " + ("ignores needs_header" if nh is None else "ignores rtf_column_header" if ch is None and want is None else f"shown={got} at needs_header={nh}, configured={ch}"), v)
+        if not any(nm == "_render_body" for nm, _l in names):
+            bad.setdefault("_render_body missing on a path", v)
+    for nm in RENDER_ORDER:
+        if nm not in seen:
+            ctx.gap("R06.2", f"no evaluated path of render lets the result of {nm} reach the page elements (emit site not re-identified)")
+    ctx.instance("R06.2", fi.where(), f"render: order of the emitted blocks {' < '.join(n for n in RENDER_ORDER if n in seen)}, once-ness, page break iff not first, "
+                 f"column headers iff needs_header ∧ configured: {len(rows)} configurations, {len(bad)} kind(s) of disagreement")
+    for k, v in sorted(bad.items()):
+        ctx.violation("R06.2", fi.short, k, fi.where(), f"render: {k} (required: page break iff not first page; title, subline, column headers iff needs_header, "
+                      f"group heading, body, footnote, source in this order, each once per page); e.g. at {dict(list(v.items())[:8])}")
+
+
+# ------------------------------------------------------------------------------------------------ figure pages
+
+FIG_EMIT = {"encode_title", "encode_subline", "encode_footnote", "encode_source", "_encode_single_figure"}
+
+
+def _fig_expected(v: dict, n: int, with_subline: bool = True) -> list[str]:
+    out = []
+    for k in range(n):
+        first, last = k == 0, k == n - 1
+        for callee, comp, field in (("encode_title", "rtf_title", "page_title"), ("encode_subline", "rtf_subline", "page_title"), ("_encode_single_figure", None, None),
+                                    ("encode_footnote", "rtf_footnote", "page_footnote"), ("encode_source", "rtf_source", "page_source")):
+            if comp is None:
+                out.append(callee)
+                continue
+            present, _c = _presence(v, comp)
+            if present and spec_show(v[f"document.rtf_page.{field}"], first, last):
+                out.append(callee)
+        if not last:
+            out.append("\\page")
+    return out
+
+
+def figure_path_table(ctx: Ctx) -> dict:
+    memo = ctx.__dict__.setdefault("_memo", {}).get("figure_table")
+    if memo is not None:
+        return memo
     pm = ctx.pm
-    fi = pm.func("PageRenderer.render")
-    pos = {}
-    for idx, s in enumerate(fi.node.body):
-        for c in ast.walk(s):
-            if isinstance(c, ast.Call):
-                nm = dotted(c.func).split(".")[-1]
-                if nm in ORDER:
-                    pos.setdefault(nm, []).append((idx, c))
-    seq = []
-    for nm in ORDER:
-        if nm not in pos:
-            ctx.violation("R06.2", fi.short, f"{nm} missing", fi.where(), f"render no longer emits {nm}")
+    fi = pm.func("UnifiedRTFEncoder._encode_figure_only")
+    out = {"fi": fi, "rows": [], "error": None}
+    ctx.__dict__["_memo"]["figure_table"] = out
+    ps = [a.arg for a in fi.node.args.args]
+    if len(ps) != 2:
+        out["error"] = "_encode_figure_only no longer takes (self, document)"
+        return out
+    doc = ps[1]
+    for n in (1, 2, 3):
+        figs, fmts = [Sym(f"fig{k}") for k in range(n)], [Sym(f"fmt{k}") for k in range(n)]
+        dt = FlowDT(pm, atoms={k.replace("document.", doc + "."): v for k, v in PLACEMENT_ATOMS.items()}, effect_calls=FIG_EMIT, opaque={"_get_dimension"},
+                    classes={doc: "RTFDocument", "self": "UnifiedRTFEncoder"}, relevant=RELEVANT, regime=True, max_atoms=40,
+                    call_model={"rtf_read_figure": lambda a, k, figs=figs, fmts=fmts: (list(figs), list(fmts))})
+        try:
+            rows = dt.table(fi, {"self": Sym("self", "UnifiedRTFEncoder"), doc: Sym(doc, "RTFDocument")}, limit=40000)
+        except (Unsupported, NeedAtom) as e:
+            out["error"] = f"_encode_figure_only is outside the decision-table subset ({e})"
+            return out
+        for v, r in rows:
+            v = {k.replace(doc + ".", "document."): x for k, x in v.items()}
+            out["rows"].append((n, v, r))
+    return out
+
+
+def placement_rule(ctx: Ctx, rule: str, figure_only: bool = False) -> None:
+    """figure-only documents: for 1, 2 and 3 figures and every configuration, the sequence of pieces that reaches the
+    output equals, page by page, [title][subline] figure [footnote][source] (\\page unless last), each placed
+    component present ∧ spec(placement field, first, last)"""
+    t = figure_path_table(ctx)
+    fi = t["fi"]
+    if t["error"]:
+        ctx.gap(rule, t["error"])
+        return
+    bad: dict[str, tuple] = {}
+    n_rows = 0
+    for n, v, r in t["rows"]:
+        if r.raised is not None:
             continue
-        if len(pos[nm]) != 1:
-            ctx.violation("R06.2", fi.short, f"{nm} x{len(pos[nm])}", fi.where(), f"render emits {nm} {len(pos[nm])} times per page")
-        idx, c = pos[nm][0]
-        seq.append((nm, idx))
-        loops = [a for a in _anc(c, fi.node) if isinstance(a, (ast.For, ast.While))]
-        if loops and nm != "encode_spanning_row":
-            ctx.violation("R06.2", fi.short, f"{nm} in loop", fi.where(c), f"render emits {nm} inside a loop (must appear once per page)")
-    ctx.instance("R06.2", fi.where(), "render block order: " + " < ".join(f"{n}@{i}" for n, i in seq))
-    for (a, ia), (b, ib) in zip(seq, seq[1:]):
-        if not ia < ib:
-            ctx.violation("R06.2", fi.short, f"{a} !< {b}", fi.where(), f"render emits {b} before {a}; required order is title, subline, column headers, group heading, body, footnote, source")
-    # all emits go to the same accumulator by append/extend and it is returned
-    rets = [unparse(r.value) for r in walk_no_nested(fi.node) if isinstance(r, ast.Return) and r.value is not None]
-    ctx.instance("R06.2", fi.where(), f"render returns {rets}")
-    if rets != ["page_elements"]:
-        ctx.violation("R06.2", fi.short, "return " + str(rets), fi.where(), "render has an early return or returns something other than the accumulated page elements")
-    # page break iff not first page
-    pb = pos.get("generate_page_break")
-    if pb:
-        tests = _guard_tests(pb[0][1], fi.node)
-        t = unparse(tests[-1]) if tests else "<none>"
-        ctx.instance("R06.2", fi.where(pb[0][1]), f"page break guard `{t}`")
-        if t != "not page.is_first_page":
-            ctx.violation("R06.2", fi.short, "page break guard " + t, fi.where(pb[0][1]), f"page break block is emitted under `{t}` instead of on every page after the first")
-    hd = pos.get("_render_column_headers")
-    if hd:
-        tests = _guard_tests(hd[0][1], fi.node)
-        t = unparse(tests[-1]) if tests else "<none>"
-        ctx.instance("R06.2", fi.where(hd[0][1]), f"column header guard `{t}`")
-        if t != "page.needs_header and document.rtf_column_header":
-            ctx.violation("R06.2", fi.short, "header guard " + t, fi.where(hd[0][1]), f"column headers are emitted under `{t}` instead of page.needs_header (and a header being configured)")
+        seq = emitted(r.ret)
+        if seq is None:
+            ctx.gap(rule, "the figure path does not return the joined sequence of its parts")
+            return
+        got = []
+        for nm, _l in seq:
+            if nm in FIG_EMIT:
+                got.append(nm)
+            elif nm.startswith("lit:") and nm[4:].strip() == "\\page":
+                got.append("\\page")
+        n_rows += 1
+        free = [f for f in ("page_title", "page_footnote", "page_source") if f"document.rtf_page.{f}" not in v]
+        for combo in itertools.product(PLACEMENTS, repeat=len(free)):
+            v2 = {**v, **{f"document.rtf_page.{f}": c for f, c in zip(free, combo)}}
+            want = _fig_expected(v2, n)
+            if figure_only:
+                want_c, got_c = [x for x in want if x != "encode_subline"], [x for x in got if x != "encode_subline"]
+            else:
+                want_c, got_c = want, got
+            if got_c != want_c:
+                # describe the first difference by component: the figure pages it lands on
+                comps = [c for c in ("encode_title", "encode_subline", "encode_footnote", "encode_source", "_encode_single_figure", "\\page")
+                         if _pages_of(got_c, c) != _pages_of(want_c, c)]
+                if comps:
+                    c = comps[0]
+                    name = c.replace("encode_", "").replace("_single_figure", "figure").replace("\\page", "page break")
+                    kind = f"{name} placement"
+                    detail = f"{name} after/on figure pages {_pages_of(got_c, c)} of {n}, specification {_pages_of(want_c, c)}"
+                else:
+                    kind = "order of the pieces"
+                    detail = f"pieces {got_c[:8]} instead of {want_c[:8]}"
+                shown = {a: b for a, b in v2.items() if "rtf_page.page_" in a or "rtf_" in a and a.startswith(("bool(", "document", "copy"))}
+                shown["what"] = detail
+                bad.setdefault(kind, (n, shown))
+                break
+    ctx.instance(rule, fi.where(), f"figure path: emitted sequence for 1, 2, 3 figures over {n_rows} configurations equals per page [title][subline] figure [footnote][source] "
+                 f"(\\page unless last) with spec placement; {len(bad)} kind(s) of disagreement")
+    for k, (n, ex) in sorted(bad.items()):
+        what = ex.pop("what", k)
+        ctx.violation(rule, fi.short, k, fi.where(), f"figure path: {what}; e.g. {n} figure(s), {ex}")
 
 
-def _anc(n, stop):
-    p = getattr(n, "_parent", None)
-    while p is not None and p is not stop:
-        yield p
-        p = getattr(p, "_parent", None)
+def _pages_of(seq: list[str], comp: str) -> list[int]:
+    """1-based figure pages on which `comp` appears (a page = one figure; header pieces precede it, trailers follow)"""
+    out, figs = [], 0
+    for x in seq:
+        if x == "_encode_single_figure":
+            figs += 1
+            if comp == x:
+                out.append(figs)
+        elif x == comp:
+            out.append(figs + 1 if comp in ("encode_title", "encode_subline") else figs)
+    return out
+
+# ------------------------------------------------------------------------------------------------ R06.3
+
+STRATEGIES = ("DefaultPaginationStrategy.paginate", "PageByStrategy.paginate", "SublineStrategy.paginate")
+
+
+def _pages_model(n: int):
+    """concrete model of 'the distinct page numbers of the row metadata, ascending' = 1..n, for the polars idioms
+    metadata["page"].unique()... and metadata.group_by("page")...; anything else stays symbolic"""
+    def model(path: str):
+        if re.search(r"\[page\]\.(unique|n_unique)\(", path) and "filter(" not in path.split("[page]")[-1]:
+            return list(range(1, n + 1))
+        if re.search(r"\.group_by\(page[,)]", path) or re.search(r"\.unique\((subset=)?\[?page", path):
+            return [RowModel(k, "pagerow") for k in range(1, n + 1)]
+        if re.search(r"^sorted\(set\(.*\[page\]", path):
+            return list(range(1, n + 1))
+        return None
+    return model
+
+
+def _builds_pages(pm, fi, depth: int = 3) -> bool:
+    for c in ast.walk(fi.node):
+        if isinstance(c, ast.Call):
+            d = dotted(c.func)
+            if d.split(".")[-1] == "PageContext":
+                return True
+            if depth > 0 and isinstance(c.func, ast.Attribute) and isinstance(c.func.value, ast.Name) and c.func.value.id in ("self", "cls") and fi.cls:
+                g = pm.find_method(fi.cls, c.func.attr)
+                if g is not None and g is not fi and _builds_pages(pm, g, depth - 1):
+                    return True
+    return False
 
 
 def r06_3(ctx: Ctx) -> None:
+    """each strategy is evaluated on a concrete model of the page numbering (pages 1..n, n = 1 and 3): every
+    PageContext it constructs must carry is_first_page = (number == 1), is_last_page = (number == n),
+    needs_header = pageby_header ∨ first, total_pages = n"""
     pm = ctx.pm
-    for short in ("DefaultPaginationStrategy.paginate", "PageByStrategy.paginate", "SublineStrategy.paginate"):
+    for short in STRATEGIES:
         fi = pm.func(short)
-        ctor = [c for c in walk_no_nested(fi.node) if isinstance(c, ast.Call) and dotted(c.func) == "PageContext"]
-        if len(ctor) != 1:
-            ctx.violation("R06.3", short, f"PageContext x{len(ctor)}", fi.where(), f"{short} does not create exactly one PageContext per page")
+        ps = [a.arg for a in fi.node.args.args]
+        if len(ps) != 2:
+            ctx.gap("R06.3", f"{short} no longer takes (self, context)")
             continue
-        kw = {k.arg: k.value for k in ctor[0].keywords}
-        from ..linform import single_assign_env
-        env_ast = single_assign_env(fi.node)
-
-        def expand(e):
-            while isinstance(e, ast.Name) and e.id in env_ast:
-                e = env_ast[e.id]
-            return e
-        dt = DT(pm, classes={"context": "PaginationContext"})
-        results = {}
-        for ph, first, last in itertools.product([True, False], [True, False], [True, False]):
-            env = {"context": Sym("context", "PaginationContext"), "display_page_num": 1 if first else (3 if last else 2),
-                   "total_pages": (1 if first and last else 3), "__fi__": fi, "page_num": 1}
-            if first and last:
-                env["display_page_num"] = 1
-            elif first:
-                env["display_page_num"] = 1
-            elif last:
-                env["display_page_num"] = 3
-            else:
-                env["display_page_num"] = 2
-            env["is_first"] = first
-            dt.val = {"bool(context.rtf_body.pageby_header)": ph}
-            dt.stores = {}
+        cx = ps[1]
+        seen = 0
+        bad: dict[str, str] = {}
+        err = None
+        for n in (1, 3):
+            dt = FlowDT(pm, classes={cx: "PaginationContext", "self": fi.cls}, seq_model=_pages_model(n), inline=lambda f: _builds_pages(pm, f), max_atoms=30)
             try:
-                nh = dt.truth(dt.ev(expand(kw["needs_header"]), env))
-                f_ = dt.truth(dt.ev(expand(kw["is_first_page"]), env))
-                l_ = dt.truth(dt.ev(expand(kw["is_last_page"]), env))
-            except (NeedAtom, KeyError, Unsupported) as e:
-                ctx.violation("R06.3", short, "flags depend on " + str(getattr(e, "key", e)), fi.where(ctor[0]), f"{short}: page flags depend on {getattr(e, 'key', e)}")
+                rows = dt.table(fi, {"self": Sym("self", fi.cls), cx: Sym(cx, "PaginationContext")}, limit=20000)
+            except (Unsupported, NeedAtom) as e:
+                err = str(e)
                 break
-            results[(ph, first, last)] = (nh, f_, l_)
-            if nh != (ph or first) or f_ != first or l_ != last:
-                ctx.violation("R06.3", short, f"flags at ph={ph},first={first},last={last}: {(nh, f_, l_)}", fi.where(ctor[0]),
-                              f"{short}: (needs_header, is_first_page, is_last_page) = {(nh, f_, l_)} for pageby_header={ph}, first={first}, last={last}; "
-                              f"expected {(ph or first, first, last)}")
-        ctx.instance("R06.3", fi.where(ctor[0]), f"{short}: needs_header=`{unparse(expand(kw.get('needs_header')))}` is_first=`{unparse(expand(kw.get('is_first_page')))}` "
-                     f"is_last=`{unparse(expand(kw.get('is_last_page')))}` over {len(results)} rows")
-        # display_page_num / total_pages provenance
-        dp = unparse(env_ast.get("display_page_num")) if "display_page_num" in env_ast else "?"
-        tp = unparse(env_ast.get("total_pages")) if "total_pages" in env_ast else "?"
-        if dp != "int(page_num)" or tp != "len(unique_pages)":
-            ctx.violation("R06.3", short, f"page numbering {dp} / {tp}", fi.where(), f"{short}: page number / total are `{dp}` / `{tp}`, expected int(page_num) / len(unique_pages)")
+            for v, r in rows:
+                ph = v.get(f"bool({cx}.rtf_body.pageby_header)")
+                undecided = [k for k in v if re.search(r"\[page\]|group_by\(page|\.unique\(", k) and not re.search(r"\.height == 0$|filter\(", k)]
+                if undecided:
+                    err = f"a page flag depends on `{undecided[0][:80]}`, which the page numbering model (pages 1..{n}) does not decide"
+                    continue
+
+                def as_bool(x):
+                    if isinstance(x, bool):
+                        return x
+                    if isinstance(x, str) and f"bool({x})" in v:
+                        return v[f"bool({x})"]
+                    return None
+                for e in r.effects:
+                    if e[0] != "construct" or e[1] != "PageContext":
+                        continue
+                    kw = e[2]
+                    pn = kw.get("page_number")
+                    if not isinstance(pn, int) or isinstance(pn, bool) or not 1 <= pn <= n:
+                        err = f"page_number `{pn}` is not one of the modelled page numbers 1..{n}"
+                        continue
+                    seen += 1
+                    first, last = pn == 1, pn == n
+                    f_, l_, nh, tp = as_bool(kw.get("is_first_page")), as_bool(kw.get("is_last_page")), as_bool(kw.get("needs_header")), kw.get("total_pages")
+                    if f_ is None or l_ is None or nh is None:
+                        err = f"page flags ({kw.get('is_first_page')}, {kw.get('is_last_page')}, {kw.get('needs_header')}) are not decided by the page numbering model"
+                        continue
+                    if f_ != first:
+                        bad.setdefault(f"is_first_page={f_} on page {pn} of {n}", "is_first_page must hold exactly on page 1")
+                    if l_ != last:
+                        bad.setdefault(f"is_last_page={l_} on page {pn} of {n}", "is_last_page must hold exactly on the last page")
+                    if tp != n:
+                        bad.setdefault(f"total_pages={tp} for {n} page(s)", "total_pages must be the number of pages")
+                    if ph is None and not first:
+                        bad.setdefault("needs_header ignores pageby_header", f"needs_header={nh} on page {pn} without consulting rtf_body.pageby_header")
+                    elif nh != bool(ph or first):
+                        bad.setdefault(f"needs_header={nh} at pageby_header={ph}, page {pn} of {n}", "needs_header must be pageby_header ∨ first page")
+        if err and not bad:
+            ctx.gap("R06.3", f"{short}: {err}")
+            if not seen:
+                continue
+        if not seen:
+            ctx.gap("R06.3", f"{short}: no PageContext construction was reached on the page numbering model (pages 1..n from the row metadata)")
+            continue
+        ctx.instance("R06.3", fi.where(), f"{short}: {seen} PageContext constructions on the models n=1,3: (is_first, is_last, needs_header, total) = "
+                     f"(number==1, number==n, pageby_header ∨ first, n); {len(bad)} disagreement(s)")
+        for k, msg in sorted(bad.items()):
+            ctx.violation("R06.3", short, k, fi.where(), f"{short}: {k}: {msg}")
     ctx.floor("R06.3", 3)
+
+
+# ------------------------------------------------------------------------------------------------ R06.4
+
+MARGIN_WORDS = ["\\margl", "\\margr", "\\margt", "\\margb", "\\headery", "\\footery"]
+_GEOM_CLASSES = {"RTFDocumentService", "RTFEncodingService", "RTFSyntaxGenerator"}
+
+
+def shared_conversions(pm) -> set[str]:
+    """last names of the functions that are (wrappers of) RTFMeasurements.inch_to_twip"""
+    names = {"inch_to_twip"}
+    for _round in range(2):
+        for fi in pm.iter_funcs():
+            body = [s for s in fi.node.body if not (isinstance(s, ast.Expr) and isinstance(s.value, ast.Constant))]
+            ps = [a.arg for a in fi.node.args.args if a.arg not in ("self", "cls")]
+            if len(body) == 1 and isinstance(body[0], ast.Return) and isinstance(body[0].value, ast.Call) and len(ps) == 1:
+                c = body[0].value
+                if dotted(c.func).split(".")[-1] in names and len(c.args) == 1 and isinstance(c.args[0], ast.Name) and c.args[0].id == ps[0] and not c.keywords:
+                    names.add(fi.short.split(".")[-1])
+    return names
+
+
+def _tokens(s: str):
+    return [(m.group(1), m.group(2) or "") for m in re.finditer(r"(\\[a-zA-Z]+)(-?\d+|‹[^‹›]*›)?", s)]
+
+
+def _conv_of(value: str, conv: set[str]):
+    """('field expression', via shared conversion?) of an emitted number ‹...› (int()/str() around it do not matter:
+    the shared conversion already returns an integer)"""
+    t = value.strip("‹›")
+    while True:
+        m = re.fullmatch(r"(?:int|str)\((.*)\)", t)
+        if not m:
+            break
+        t = m.group(1)
+    m = re.fullmatch(r"(?:[A-Za-z_]\w*\.)*([A-Za-z_]\w*)\((.*)\)", t)
+    if m and m.group(1) in conv:
+        return m.group(2), True
+    return t, False
+
+
+def _geometry(ctx: Ctx, rule: str, fi, s: str, page: str, what: str, bad: dict, conv: set[str]) -> bool:
+    """check \\paperw/\\paperh and the six margin words of one fully evaluated block; returns False when the
+    block contains pieces that could not be evaluated (gap)"""
+    toks = _tokens(s)
+    words = [w for w, _v in toks]
+    opaque = [v for _w, v in toks if v.startswith("‹") and "(…)" in v] + re.findall(r"‹[^‹›]*\(…\)[^‹›]*›", s)
+    for word, fld in (("\\paperw", "width"), ("\\paperh", "height")):
+        vals = [v for w, v in toks if w == word]
+        if len(vals) != 1:
+            if opaque:
+                return False
+            bad.setdefault(f"{what} geometry", f"{what}: {word} is written {len(vals)} times")
+            continue
+        src, shared = _conv_of(vals[0], conv)
+        other = "height" if fld == "width" else "width"
+        if src == f"{page}.{other}":
+            bad.setdefault("paperw/paperh swapped", f"{what}: {word} is written from {src}")
+        elif src != f"{page}.{fld}" or not shared:
+            if not vals[0].startswith("‹") or f"{page}." in vals[0] or "*" in vals[0]:
+                bad.setdefault(f"{what} geometry", f"{what}: {word} is written from `{vals[0].strip('‹›')}`, not the shared inch->twip conversion of {page}.{fld}")
+            else:
+                return False
+    if "\\paperw" in words and "\\paperh" in words and words.index("\\paperw") > words.index("\\paperh"):
+        bad.setdefault("paperw/paperh order", f"{what}: \\paperw must precede \\paperh")
+    got = [(w, v) for w, v in toks if w in MARGIN_WORDS]
+    if [w for w, _v in got] != MARGIN_WORDS:
+        if opaque and len(got) < 6:
+            return False
+        bad.setdefault(f"margin words {[w for w, _v in got]}", f"{what}: margins are written as {[w for w, _v in got]}, expected {MARGIN_WORDS} in this order")
+    else:
+        for i, (w, v) in enumerate(got):
+            src, shared = _conv_of(v, conv)
+            if src != f"{page}.margin[{i}]" or not shared:
+                if f"{page}.margin[" in v or not v.startswith("‹"):
+                    bad.setdefault(f"margin words {w} <- {v.strip('‹›')}", f"{what}: {w} is written from `{v.strip('‹›')}`, expected the shared conversion of {page}.margin[{i}]")
+                else:
+                    return False
+    return True
+
+
+def _memo_keys(pm, fi):
+    """(container, key expression) of every store `C[key] = ...` into a container that outlives the call"""
+    out = []
+    for a in walk_no_nested(fi.node):
+        tg = a.targets if isinstance(a, ast.Assign) else [a.target] if isinstance(a, (ast.AugAssign, ast.AnnAssign)) else []
+        for t in tg:
+            if isinstance(t, ast.Subscript):
+                b = t.value
+                persistent = isinstance(b, ast.Attribute) and isinstance(b.value, ast.Name) and (b.value.id in ("self", "cls") or b.value.id in pm.classes)
+                if isinstance(b, ast.Name):
+                    mi = pm.modules.get(fi.module)
+                    persistent = mi is not None and b.id in mi.assigns
+                if persistent:
+                    out.append((unparse(b), t.slice))
+    return out
 
 
 def r06_4(ctx: Ctx) -> None:
     pm = ctx.pm
     from .c16 import units_rule
     units_rule(ctx, "R06.4")
-    pb = pm.func("RTFEncodingService.encode_page_break")
-    t = unparse(pb.node)
-    conv = ("Utils._inch_to_twip(page_config.width)" in t or "RTFMeasurements.inch_to_twip(page_config.width)" in t) and \
-           ("Utils._inch_to_twip(page_config.height)" in t or "RTFMeasurements.inch_to_twip(page_config.height)" in t)
-    words = "\\\\paperw" in t and "\\\\paperh" in t and "page_margin_encode_func()" in t and "\\\\page" in t
-    ctx.instance("R06.4", pb.where(), f"page break block: \\paperw/\\paperh from page_config.width/height via the shared conversion: {conv}; margins via callback: {words}")
-    if not (conv and words):
-        ctx.violation("R06.4", pb.short, "page break geometry", pb.where(), "the page-break block does not restate \\paperw/\\paperh (shared conversion of rtf_page.width/height) and the margins")
-    pw = t.find("\\\\paperw")
-    ph = t.find("\\\\paperh")
-    if not (0 <= pw < ph):
-        ctx.violation("R06.4", pb.short, "paperw/paperh order", pb.where(), "\\paperw must take the width and precede \\paperh")
-    # width->paperw, height->paperh
-    import re
-    m = re.search(r"paperw\{([^}]*)\}.*?paperh\{([^}]*)\}", t, re.S)
-    if m and not ("width" in m.group(1) and "height" in m.group(2)):
-        ctx.violation("R06.4", pb.short, "paperw/paperh swapped", pb.where(), f"\\paperw is written from `{m.group(1)}` and \\paperh from `{m.group(2)}`")
+    conv = shared_conversions(pm)
+    margin = [Sym(f"document.rtf_page.margin[{i}]") for i in range(6)]
+    inline = lambda f: f.cls in _GEOM_CLASSES                      # noqa: E731
+    # ---- page-break block
     gp = pm.func("RTFDocumentService.generate_page_break")
-    t2 = unparse(gp.node)
-    same_page = "encode_page_break(document.rtf_page" in t2 and "encode_page_margin(document.rtf_page)" in t2
-    ctx.instance("R06.4", gp.where(), f"generate_page_break passes document.rtf_page to both size and margin encoders: {same_page}")
-    if not same_page:
-        ctx.violation("R06.4", gp.short, "page config source", gp.where(), "the page-break block is not built from the document's own rtf_page")
-    # margin words: same six, same order, same index mapping at both sites
-    pmg = pm.func("RTFEncodingService.encode_page_margin")
-    codes = None
-    for a in walk_no_nested(pmg.node):
-        if isinstance(a, ast.Assign) and unparse(a.targets[0]) == "margin_codes":
-            codes = const_expr(pm, pmg.module, a.value)
-    want = ["\\margl", "\\margr", "\\margt", "\\margb", "\\headery", "\\footery"]
-    tm = unparse(pmg.node)
-    conv_m = "Utils._inch_to_twip(m) for m in page_config.margin" in tm and "zip(margin_codes, margins, strict=True)" in tm
-    ctx.instance("R06.4", pmg.where(), f"page-break margin words {codes}; converted element-wise in order: {conv_m}")
-    if codes is NOC or list(codes or []) != want or not conv_m:
-        ctx.violation("R06.4", pmg.short, f"margin words {codes}", pmg.where(), f"page-break margins are not {want} paired in order with rtf_page.margin through the shared conversion")
-    gs = pm.func("RTFSyntaxGenerator.generate_page_settings")
-    ts = unparse(gs.node)
-    idx = []
-    for i, w in enumerate(want):
-        k = ts.find(w.replace("\\", "\\\\") + "{margin_twips[%d]}" % i)
-        idx.append(k)
-    ok_start = all(k >= 0 for k in idx) and idx == sorted(idx)
-    conv_s = "Utils._inch_to_twip(m)" in ts and "for m in margins" in ts and "Utils._inch_to_twip(width)" in ts and "Utils._inch_to_twip(height)" in ts
-    ctx.instance("R06.4", gs.where(), f"document start: six margin words with matching indices: {ok_start}; shared conversion: {conv_s}")
-    if not (ok_start and conv_s):
-        ctx.violation("R06.4", gs.short, "document-start geometry", gs.where(), "document-start page settings no longer write the six margins in order through the shared conversion")
-    ps = pm.func("RTFEncodingService.encode_page_settings")
-    tp = unparse(ps.node)
-    args_ok = "generate_page_settings(page_config.width, page_config.height, page_config.margin, page_config.orientation)" in tp
-    if not args_ok:
-        ctx.violation("R06.4", ps.short, "page settings arguments", ps.where(), "document-start page settings are not built from rtf_page.width/height/margin/orientation in that order")
-    # landscape flag depends on orientation only
-    land = [n for n in walk_no_nested(gs.node) if isinstance(n, ast.IfExp) and "landscape" in unparse(n)]
-    ok_l = len(land) == 1 and unparse(land[0].test) == "orientation == 'landscape'" and unparse(land[0].body).strip("'\"").startswith("\\\\landscape") and unparse(land[0].orelse) == "''"
-    ctx.instance("R06.4", gs.where(), f"landscape flag expression `{unparse(land[0]) if land else '?'}`")
-    if not ok_l:
-        ctx.violation("R06.4", gs.short, "landscape flag " + (unparse(land[0].test) if land else "missing"), gs.where(),
-                      "\\landscape must be written exactly when orientation == 'landscape' (no further condition)")
-    if "{landscape_cmd}" not in ts:
-        ctx.violation("R06.4", gs.short, "landscape flag not emitted", gs.where(), "the landscape flag is computed but not written")
+    ps = [a.arg for a in gp.node.args.args]
+    bad: dict[str, str] = {}
+    if len(ps) != 2:
+        ctx.gap("R06.4", "generate_page_break no longer takes (self, document)")
+    else:
+        doc = ps[1]
+        dt = FlowDT(pm, classes={doc: "RTFDocument", "self": "RTFDocumentService", f"{doc}.rtf_page": "RTFPage"}, inline=inline, max_atoms=12,
+                    preset={f"{doc}.rtf_page.margin": margin})
+        try:
+            rows = dt.table(gp, {"self": Sym("self", "RTFDocumentService"), doc: Sym(doc, "RTFDocument")}, limit=400)
+        except (Unsupported, NeedAtom) as e:
+            rows = None
+            ctx.gap("R06.4", f"the page-break block could not be evaluated ({e})")
+        if rows is not None:
+            n_ok = 0
+            for v, r in rows:
+                s = r.ret
+                if r.raised is not None:
+                    continue
+                if not isinstance(s, str):
+                    ctx.gap("R06.4", f"the page-break block is not a fully evaluated string ({str(s)[:60]})")
+                    continue
+                s = s.replace(doc + ".", "document.")
+                if "\\page" not in [w for w, _v in _tokens(s)]:
+                    if "(…)" in s:
+                        ctx.gap("R06.4", "the page-break block contains unevaluated pieces and no \\page")
+                        continue
+                    bad.setdefault("page break geometry", "the page-break block contains no \\page")
+                if not _geometry(ctx, "R06.4", gp, s, "document.rtf_page", "page-break block", bad, conv):
+                    ctx.gap("R06.4", f"the page-break block contains pieces that could not be traced to rtf_page: {s[:120]!r}")
+                else:
+                    n_ok += 1
+            ctx.instance("R06.4", gp.where(), f"page-break block evaluated on {len(rows)} path(s): \\page, \\paperw/\\paperh and the six margin words from document.rtf_page "
+                         f"through the shared conversion ({sorted(conv)}); {len(bad)} disagreement(s)")
+    for k, msg in sorted(bad.items()):
+        ctx.violation("R06.4", gp.short if "margin" not in k else "RTFEncodingService.encode_page_margin", k, gp.where(), msg)
+    # ---- the block must be a function of the current page configuration: no memo keyed by part of it
+    for short in ("RTFDocumentService.generate_page_break", "RTFEncodingService.encode_page_break", "RTFEncodingService.encode_page_margin"):
+        if not pm.has_func(short):
+            continue
+        f = pm.func(short)
+        for cont, key in _memo_keys(pm, f):
+            names = {x.split(".")[-1] for x in leaves(resolve(key, f.node))}
+            whole = any(x.endswith("rtf_page") or x in ("page_config",) for x in leaves(resolve(key, f.node)))
+            need = {"width", "height", "margin"}
+            ctx.instance("R06.4", f.where(), f"{short}: result kept in {cont} keyed by `{unparse(resolve(key, f.node))[:80]}`")
+            if whole:
+                ctx.gap("R06.4", f"{short} memoises its result by the page object itself; whether later changes of the page are reflected was not decided")
+            elif need - names:
+                ctx.violation("R06.4", short, "page config source", f.where(key),
+                              f"{short} reuses a page-break block memoised in {cont} by `{unparse(resolve(key, f.node))[:80]}`, which omits {sorted(need - names)}: "
+                              "the block restates width, height and the six margins of the current rtf_page")
+        for d in f.decorators:
+            if d.split(".")[-1] in ("lru_cache", "cache", "cached_property"):
+                ctx.gap("R06.4", f"{short} is wrapped by {d}; whether the block still follows the current rtf_page was not decided")
+    # ---- document start
+    ps_f = pm.func("RTFEncodingService.encode_page_settings")
+    pp = [a.arg for a in ps_f.node.args.args]
+    bad = {}
+    if len(pp) != 2:
+        ctx.gap("R06.4", "encode_page_settings no longer takes (self, page_config)")
+    else:
+        pc = pp[1]
+        dt = FlowDT(pm, classes={"self": "RTFEncodingService"}, inline=inline, max_atoms=12, atoms={f"{pc}.orientation": ["portrait", "landscape"]},
+                    preset={f"{pc}.margin": [Sym(f"{pc}.margin[{i}]") for i in range(6)]})
+        try:
+            rows = dt.table(ps_f, {"self": Sym("self", "RTFEncodingService"), pc: Sym(pc, "RTFPage")}, limit=400)
+        except (Unsupported, NeedAtom) as e:
+            rows = None
+            ctx.gap("R06.4", f"the document-start page settings could not be evaluated ({e})")
+        if rows is not None:
+            for v, r in rows:
+                s = r.ret
+                if r.raised is not None:
+                    continue
+                if not isinstance(s, str):
+                    ctx.gap("R06.4", f"the document-start page settings are not a fully evaluated string ({str(s)[:60]})")
+                    continue
+                if not _geometry(ctx, "R06.4", ps_f, s, pc, "document start", bad, conv):
+                    ctx.gap("R06.4", f"the document-start page settings contain pieces that could not be traced to the page configuration: {s[:120]!r}")
+                land = "\\landscape" in [w for w, _v in _tokens(s)]
+                o = v.get(f"{pc}.orientation")
+                others = sorted(k for k in v if k != f"{pc}.orientation")
+                if o is None:
+                    bad.setdefault("landscape flag ignores orientation", f"\\landscape written={land} without consulting the orientation")
+                elif land != (o == "landscape"):
+                    bad.setdefault("landscape flag " + (("depends on " + ", ".join(others)[:80]) if others else f"written={land} for {o}"),
+                                   f"\\landscape written={land} for orientation={o!r}" + (f" at {{{', '.join(f'{k}: {v[k]}' for k in others)}}}" if others else "") +
+                                   "; it must be written exactly when orientation == 'landscape' (no further condition)")
+            ctx.instance("R06.4", ps_f.where(), f"document start evaluated on {len(rows)} path(s): same geometry words from the page configuration, \\landscape iff orientation == 'landscape'; "
+                         f"{len(bad)} disagreement(s)")
+    for k, msg in sorted(bad.items()):
+        ctx.violation("R06.4", "RTFSyntaxGenerator.generate_page_settings", k, ps_f.where(), msg)
+
+
+# ------------------------------------------------------------------------------------------------ R06.5 / R06.6
+
+def _anc(n, stop):
+    p = getattr(n, "_parent", None)
+    while p is not None and p is not stop:
+        yield p
+        p = getattr(p, "_parent", None)
 
 
 def r06_5(ctx: Ctx) -> None:
@@ -387,9 +1344,11 @@ def r06_5(ctx: Ctx) -> None:
             calls = [c for c in calls if any(id(nd) in live for nd in g.node_containing(c))]
             in_loop = [c for c in calls if any(isinstance(a, (ast.For, ast.While)) for a in _anc(c, fi.node))]
             ctx.instance("R06.5", fi.where(), f"{path}: {callee} called {len(calls)}x in reachable code, in a loop: {len(in_loop)}")
-            if len(calls) != 1 or in_loop:
+            if not calls:
+                ctx.gap("R06.5", f"{path}: the call of {callee} could not be re-identified")
+            elif len(calls) != 1 or in_loop:
                 ctx.violation("R06.5", path, f"{callee} x{len(calls)} loop={len(in_loop)}", fi.where(), f"{path}: {callee} must be emitted exactly once per document ({len(calls)} call(s), {len(in_loop)} in loops)")
-            elif comp and f"document.{comp}" not in unparse(calls[0]):
+            elif comp and not any(x == comp or x.endswith("." + comp) for a in list(calls[0].args) + [k.value for k in calls[0].keywords] for x in leaves(resolve(a, fi.node))):
                 ctx.violation("R06.5", path, f"{callee} argument", fi.where(calls[0]), f"{path}: {callee} is not given document.{comp}")
     r = pm.func("PageRenderer.render")
     for callee in ("encode_page_header", "encode_page_footer"):
@@ -401,7 +1360,7 @@ def r06_5(ctx: Ctx) -> None:
         ok = any(word in x and x.count("{{") >= 1 for x in rets) and "''" in rets
         ctx.instance("R06.5", f.where(), f"{callee} returns {rets}")
         if not ok:
-            ctx.violation("R06.5", callee, "group " + str(rets)[:60], f.where(), f"{callee} no longer returns '' or one {word.replace(chr(92)*2, chr(92))} group")
+            ctx.gap("R06.5", f"{callee}: the two results ('' / one {word.replace(chr(92) * 2, chr(92))} group) could not be re-identified among {str(rets)[:80]}")
     ctx.floor("R06.5", 18)
 
 
@@ -418,29 +1377,32 @@ def r06_6(ctx: Ctx) -> None:
             elif isinstance(nd, (ast.AugAssign, ast.AnnAssign)):
                 targets = [nd.target]
             for t in targets:
-                if isinstance(t, ast.Attribute) and t.attr in flags:
+                if isinstance(t, ast.Attribute) and t.attr in flags and not (isinstance(t.value, ast.Name) and t.value.id == "self" and fi.cls == "PageContext"):
                     n += 1
                     ctx.violation("R06.6", fi.short, "store " + unparse(t), fi.where(nd),
                                   f"{fi.short}: `{unparse(nd)[:70]}` rewrites a page flag after pagination; placement decisions (first/last/all) read it later")
             if isinstance(nd, ast.Call) and isinstance(nd.func, ast.Name) and nd.func.id == "setattr" and len(nd.args) > 1 and isinstance(nd.args[1], ast.Constant) and nd.args[1].value in flags:
                 ctx.violation("R06.6", fi.short, "setattr " + str(nd.args[1].value), fi.where(nd), f"{fi.short}: rewrites page flag {nd.args[1].value}")
-    ctors = sum(1 for fi in pm.iter_funcs() for c in walk_no_nested(fi.node) if isinstance(c, ast.Call) and dotted(c.func) == "PageContext")
+    ctors = sum(1 for fi in pm.iter_funcs() for c in walk_no_nested(fi.node) if isinstance(c, ast.Call) and dotted(c.func).split(".")[-1] == "PageContext")
     ctx.instance("R06.6", "src/rtflite", f"page flags are set only through {ctors} PageContext(...) constructions; {n} later stores")
 
 
 def check(ctx: Ctx) -> None:
     ctx.explain(
         "R06.1 the two placement predicates are evaluated as decision tables over placement x first x last (16 rows each) and "
-        "equal the specification; each emit site of render is shown iff component present ∧ spec(placement field) over all "
-        "valuations of its guard's atoms; the figure path's inline predicates likewise (48 rows each). R06.2 syntactic order of "
-        "the emit blocks of render, once-ness, page break iff not first, headers iff needs_header. R06.3 needs_header/is_first/"
-        "is_last at the three strategies equal (pageby_header ∨ first, first, last) on 8 rows each. R06.4 who-may-convert rule "
-        "plus page-break geometry fields/words vs document start; landscape flag. R06.5 once-per-document emitters. R06.6 no "
-        "store to page flags after pagination.")
+        "equal the specification; PageRenderer.render is evaluated as a whole over symbolic (document, page) for every "
+        "configuration of component presence x placement fields x first/last x needs_header, and each placed component must reach "
+        "the returned page elements iff present ∧ spec(placement field); the figure path is evaluated on concrete models of 1, 2, 3 "
+        "figures and its emitted sequence must equal the specified one page by page. R06.2 order and once-ness of the blocks in "
+        "the returned page elements, page break iff not first, headers iff needs_header. R06.3 the three strategies evaluated on "
+        "a concrete page-numbering model (pages 1..n): flags of every constructed PageContext. R06.4 who-may-convert rule plus "
+        "the evaluated page-break block and document-start block (words, order, sources, shared conversion), no partial-key "
+        "memoisation; landscape flag. R06.5 once-per-document emitters. R06.6 no store to page flags after pagination.")
     ctx.assume("PageContext flags are read, not recomputed, by the renderer and the processor")
+    ctx.assume("the distinct page numbers assigned by the row metadata are 1..n (see C04)")
     ctx.undecided("numeric values of the geometry words; which concrete rows land on which page")
     predicate_tables(ctx, "R06.1")
-    render_guards(ctx, "R06.1")
+    r06_1_render(ctx, "R06.1")
     placement_rule(ctx, "R06.1")
     r06_2(ctx)
     r06_3(ctx)
